@@ -8,7 +8,7 @@ Follows, branch by branch:
 * `resolve_bounds_map`                typevar.py:31  — per type variable: `tuple(dict.fromkeys(bounds))`
                                       (order-preserving de-duplication by hash + `==`), then `solve`;
 * `solve`                             typevar.py:81  — the left fold over the bounds with the state
-                                      `bottom` / `top` / `options`, the skip of `Any` lower bounds, the
+                                      `bottom` / `top` / `options`, the skip of `Any` lower and upper bounds, the
                                       three-way branch on `is_assignable` for lower and upper bounds
                                       (incomparable bounds are **united**, also the upper ones), `OrBound`
                                       ignored, `IsOneOf` overwriting `options`; the final
@@ -117,7 +117,8 @@ def step (st : St) : Bound → St
     match st.top with
     | none => { st with top := some v }
     | some t =>
-      if le v t then { st with top := some v }                   -- top.is_assignable(bound.value)
+      if isAny v then st                                         -- "Ignore upper bounds to Any"
+      else if le v t then { st with top := some v }              -- top.is_assignable(bound.value)
       else if le t v then st                                     -- bound.value.is_assignable(top)
       else { st with top := some (join t v) }                    -- unite_values(top, bound.value)  (sic)
   | .or _ => st                                                  -- "TODO figure out how to handle this"
